@@ -39,7 +39,7 @@ class Env:
             p.write_text(json.dumps(data))
         else:
             import yaml
-            p.write_text(yaml.safe_dump(data))
+            p.write_text(yaml.safe_dump(data, sort_keys=False))
         return p
 
     def viol(self, prop, ob, what, witness, key=None):
@@ -296,9 +296,9 @@ def s_different_location(E, tier):
              ('tags', ['ab'], ['a', 'b']), ('tags', 1, '1'), ('tags', [1, 2], [1, [2]]), ('tags', {'a': 1, 'b': 2}, {'a': 1, 'b': 3}), ('tags', None, 'None'),
              ('title', 't', 'u'), ('tags', 1, 1.5), ('tags', [], {}), ('tags', 'a, b', ['a', 'b'])]
     wdef = lambda **kw: {'class': f'{LIB}.Weights', 'kwargs': kw}
-    pairs += [('w', wdef(scale=1), wdef(scale=2)), ('w', wdef(scale=1, bias=1), wdef(scale=1, bias=2)), ('w', wdef(scale=[1, 2]), wdef(scale=[1, 3])),
+    pairs += [('w', wdef(scale=[1, 2]), wdef(scale=[2, 1])), ('w', wdef(scale=1), wdef(scale=2)), ('w', wdef(scale=1, bias=1), wdef(scale=1, bias=2)), ('w', wdef(scale=[1, 2]), wdef(scale=[1, 3])),
               ('w', wdef(scale=1, bias=None), wdef(scale=1)), ('w', wdef(scale=None), wdef(scale=0))]
-    for k, v1, v2 in (pairs if tier == 'thorough' else pairs[:12] + pairs[-4:]):
+    for k, v1, v2 in (pairs if tier == 'thorough' else pairs[:12] + pairs[-5:] + [p_ for p_ in pairs if p_[0] == 'w'][:1]):
         base = {'n': 2}
         d = E.dir()
         E.tried += 1
@@ -607,6 +607,8 @@ def s_multichain(E, tier):
         n_objects = len({id(mc[k][n]) for k in specs for n in NAMES[1:]})
         if len(lib.RUNS) != n_objects:
             E.viol('C13', 'recompute_once', f'recompute ran {len(lib.RUNS)} tasks for {n_objects} distinct forced task objects: {sorted(lib.RUNS)}', 'force(dbl, recompute=True)')
+            E.viol('C07', 'recompute_once', f'force(data:dbl, recompute=True) through a MultiChain: {len(lib.RUNS)} runs for {n_objects} distinct forced task objects '
+                   f'(every forced task must be recomputed exactly once): {sorted(lib.RUNS)}', 'MultiChain.force(dbl, recompute=True)', key='multichain-recompute')
         lib.RUNS.clear()
         mc.force('mem', delete_data=True)
         for k in specs:
@@ -1393,10 +1395,252 @@ def s_no_shared_values(E, tier):
         E.viol('C09', 'no_sharing', f'b::tags = {tb!r} / {tb2!r}; the global context entry is [\'global\', {{\'k\': [1]}}]', 'b', key='other-namespace-affected')
 
 
+def s_none_param(E, tier):
+    """C01 / C09: a parameter given explicitly as None is None for the task - not its default - on first computation and
+    from the store"""
+    from taskchain import Config
+    from contracts.pipelines import lib
+    for title in (None, 'other'):
+        d = E.dir()
+        E.tried += 1
+        params = {'n': 2, 'title': title}
+        f = E.write(d, 'c', cfg(**params))
+        with quiet():
+            v1 = Config(d / 'data', f).chain()['report'].value
+            v0 = Config(d / 'data', E.write(d, 'dflt', cfg(n=2))).chain()['report'].value
+            v2 = Config(d / 'data', f).chain()['report'].value
+        ref = lib.reference(params)['report']
+        for label, v in (('computed', v1), ('after the default-valued config used the same store', v2)):
+            if v != ref:
+                E.viol('C01', 'value', f'title={title!r} ({label}): report = {v!r}, reference {ref!r}', params, key='explicit-none')
+        if v0 != lib.reference({'n': 2})['report']:
+            E.viol('C01', 'value', f'default title: report = {v0!r}', 'default', key='explicit-none-default')
+
+
+def s_same_location_more(E, tier):
+    """C02: mappings with non-string keys in any order; tasks without parameters and inputs under any config name"""
+    from taskchain import Config
+    d = E.dir()
+    E.tried += 2
+    with quiet():
+        a = rel_paths(Config(d / 'data', E.write(d, 'a', cfg(n=1, tags={10: 'low', 20: 'mid', 5: {2: 'x', 1: 'y'}}), ext='yaml')).chain(), d / 'data')
+        b = rel_paths(Config(d / 'data', E.write(d, 'b', cfg(n=1, tags={20: 'mid', 5: {1: 'y', 2: 'x'}, 10: 'low'}), ext='yaml')).chain(), d / 'data')
+    if a['model:agg:total'] != b['model:agg:total']:
+        E.viol('C02', 'location', f'a mapping with integer keys listed in another order moved model:agg:total: {a["model:agg:total"]} vs {b["model:agg:total"]}',
+               'int keys permuted', key='non-string-mapping-keys')
+    spec = {'tasks': [f'{LIB}.Const', f'{LIB}.UsesConst']}
+    with quiet():
+        c1 = rel_paths(Config(d / 'data', E.write(d, 'experiment', spec)).chain(), d / 'data')
+        c2 = rel_paths(Config(d / 'data', E.write(d / 'archive', 'experiment_2024', spec)).chain(), d / 'data')
+    if c1 != c2:
+        E.viol('C02', 'location', f'tasks without parameters and inputs: the location depends on the config name: {c1} vs {c2}', 'renamed config', key='parameterless-task-config-name')
+
+
+def s_shared_registry(E, tier):
+    """C04: building another chain over a shared task registry computes nothing and does not make computed tasks run again"""
+    from taskchain import Config, Chain
+    from contracts.pipelines import lib
+    d = E.dir()
+    E.tried += 1
+    f = E.write(d, 'c', cfg(n=2))
+    with quiet():
+        shared = {}
+        lib.RUNS.clear()
+        c1 = Chain(Config(d / 'data', f, name='c1'), shared_tasks=shared)
+        v1 = c1['report'].value
+        first = list(lib.RUNS)
+        lib.RUNS.clear()
+        c2 = Chain(Config(d / 'data', f, name='c2'), shared_tasks=shared)
+        built = list(lib.RUNS)
+        v1b = c1['report'].value
+        v1m = c1['mem'].value
+        v2 = c2['mem'].value
+    if built:
+        E.viol('C04', 'inspect', f'building a second chain over the shared registry ran {built}', 'shared registry', key='construction-runs')
+    if lib.RUNS:
+        E.viol('C04', 'once', f'after a second chain was built over the shared registry, already computed tasks ran again: {lib.RUNS} '
+               f'(first computation ran {first})', 'shared registry', key='shared-registry-rerun')
+    if v1b != v1 or v1m != v2:
+        E.viol('C04', 'once', 'values changed after a second chain was built over the shared registry', 'shared registry', key='shared-registry-values')
+
+
+def s_late_upstream(E, tier):
+    """C04: a stored result is loaded without touching its upstream - also when an input it did not need is computed later"""
+    from taskchain import Config, Task, Parameter
+    runs = []
+
+    class LuRaw(Task):
+        def run(self) -> list:
+            runs.append('lu_raw')
+            return [1, 2, 3]
+
+    class LuSummary(Task):
+        class Meta:
+            input_tasks = [LuRaw]
+            parameters = [Parameter('detailed', default=False)]
+
+        def run(self, detailed) -> int:
+            runs.append('lu_summary')
+            return sum(self.input_tasks['lu_raw'].value) if detailed else 0
+    d = E.dir()
+    E.tried += 1
+    import time as _t
+    mk = lambda: Config(d / 'data', name='c', data={'tasks': [LuRaw, LuSummary]}).chain()
+    with quiet():
+        _ = mk()['lu_summary'].value
+        _t.sleep(0.05)
+        _ = mk()['lu_raw'].value          # the unneeded input is computed afterwards (its file is newer)
+        runs.clear()
+        v = mk()['lu_summary'].value
+    if runs or v != 0:
+        E.viol('C04', 'load', f'a stored result was not simply loaded after an input it never needed was computed later: ran {runs}, value {v!r}', 'late upstream', key='late-upstream')
+
+
+def s_force_replaces(E, tier):
+    """C07: a forced task runs again exactly once and REPLACES the stored result (seen by later chains), with and without delete_data"""
+    from taskchain import Config
+    from contracts.pipelines import lib
+    for delete in (False, True):
+        d = E.dir()
+        E.tried += 1
+        lib.COUNTER['n'] = 0
+        spec = {'tasks': [f'{LIB}.Counter', f'{LIB}.AfterCounter']}
+        f = E.write(d, 'c', spec)
+        with quiet():
+            ch = Config(d / 'data', f).chain()
+            a0 = ch['after_counter'].value
+            ch = Config(d / 'data', f).chain()
+            ch.force('counter', delete_data=delete)
+            lib.RUNS.clear()
+            a1 = ch['after_counter'].value
+            ran = list(lib.RUNS)
+            later = Config(d / 'data', f).chain()
+            lib.RUNS.clear()
+            a2, c2 = later['after_counter'].value, later['counter'].value
+        if a0 != 10 or a1 != 20 or sorted(ran) != ['after_counter', 'counter']:
+            E.viol('C07', 'once', f'forced recomputation (delete_data={delete}): values {a0} -> {a1}, ran {ran}', delete, key='force-once')
+        if (a2, c2) != (20, 2) or lib.RUNS:
+            E.viol('C07', 'replaced', f'after a forced recomputation (delete_data={delete}) a later chain sees counter={c2}, after_counter={a2} '
+                   f'(runs {lib.RUNS}); the recomputed results are 2 and 20', delete, key='stored-result-not-replaced')
+
+
+def s_global_vars_object(E, tier):
+    """C11: placeholders are looked up in the global_vars object the way attributes are looked up: instance attributes,
+    class attributes, inherited ones, properties"""
+    from taskchain import Config
+
+    class Base:
+        DATA_DIR = '/mnt/data'
+
+    class Settings(Base):
+        MODEL = 'm1'
+
+        def __init__(self):
+            self.RUN = 'r7'
+
+        @property
+        def OUT(self):
+            return '/out'
+    gv = Settings()
+    d = E.dir()
+    E.tried += 1
+    with quiet():
+        c = Config(d, name='c', data={'a': '{DATA_DIR}/x.csv', 'b': ['{MODEL}', {'k': '{RUN}/{OUT}'}], 'c': '{UNDEFINED}/y'}, global_vars=gv)
+        got = (str(c['a']), [str(c['b'][0]), {'k': str(c['b'][1]['k'])}], str(c['c']))
+    want = ('/mnt/data/x.csv', ['m1', {'k': 'r7//out'}], '{UNDEFINED}/y')
+    if got != want:
+        E.viol('C11', 'object_attributes', f'global_vars given as an object with class / inherited / instance attributes and a property: values {got}, expected {want}',
+               'Settings()', key='global-vars-object')
+
+
+def s_multichain_memory(E, tier):
+    """C13: in-memory tasks are shared across member chains exactly when they are the same computation"""
+    from taskchain import Config, MultiChain
+    from contracts.pipelines import lib
+    d = E.dir()
+    E.tried += 1
+    data_f = E.write(d, 'data', {'tasks': [f'{LIB}.Vocab', f'{LIB}.Feats']})
+    f_en = E.write(d, 'exp_en', {'uses': str(data_f)})
+    f_en2 = E.write(d, 'exp_en2', {'uses': str(data_f)})
+    with quiet():
+        lib.RUNS.clear()
+        mc = MultiChain([Config(d / 'store', f_en), Config(d / 'store', f_en, name='exp_de', context={'lang': 'de'}), Config(d / 'store', f_en2)])
+        vals = {k: (mc[k]['vocab'].value, mc[k]['feats'].value) for k in ('exp_en', 'exp_de', 'exp_en2')}
+    want = {'exp_en': ('vocab-en', 'feats(vocab-en)'), 'exp_de': ('vocab-de', 'feats(vocab-de)'), 'exp_en2': ('vocab-en', 'feats(vocab-en)')}
+    if vals != want:
+        E.viol('C13', 'same_values', f'in-memory task with a context-changed parameter: member values {vals}, standalone chains give {want}', 'lang', key='in-memory-values')
+    if mc['exp_en']['vocab'] is mc['exp_de']['vocab'] or mc['exp_en']['feats'] is mc['exp_de']['feats']:
+        E.viol('C13', 'sharing', 'in-memory vocab(lang=en) and vocab(lang=de), or their dependants, are one object', 'lang', key='in-memory-over-shared')
+    if mc['exp_en']['vocab'] is not mc['exp_en2']['vocab'] or lib.RUNS.count('vocab') != 2:
+        E.viol('C13', 'sharing', f'identical in-memory tasks of two member chains are not one object / ran {lib.RUNS.count("vocab")} times for 2 computations', 'same', key='in-memory-under-shared')
+
+
+def s_multichain_mounts(E, tier):
+    """C13: member configs may mount one pipeline under different namespaces: every member equals its standalone chain"""
+    from taskchain import Config, MultiChain
+    from contracts.pipelines import lib
+    d = E.dir()
+    E.tried += 1
+    inner = E.write(d, 'p', cfg(n=3))
+    files = {'c1': E.write(d, 'c1', {'uses': f'{inner} as x'}), 'c2': E.write(d, 'c2', {'uses': f'{inner} as y'}), 'c3': E.write(d, 'c3', {'uses': str(inner)})}
+    pref = {'c1': 'x::', 'c2': 'y::', 'c3': ''}
+    with quiet():
+        try:
+            mc = MultiChain([Config(d / 'data', f) for f in files.values()])
+        except Exception as e:
+            E.viol('C13', 'same_tasks', f'a MultiChain of configs that mount the same pipeline as `x`, as `y` and unmounted cannot be built '
+                   f'({type(e).__name__}: {e}) although every standalone chain can', 'uses p as x / as y', key='per-chain-namespaces')
+            return
+        ref = lib.reference({'n': 3})
+        for k in files:
+            solo = Config(d / f'solo_{k}', files[k]).chain()
+            if sorted(mc[k].tasks) != sorted(solo.tasks):
+                E.viol('C13', 'same_tasks', f'member {k} has tasks {sorted(mc[k].tasks)}, standalone {sorted(solo.tasks)}', k, key='per-chain-namespaces-tasks')
+                continue
+            for n in NAMES:
+                if mc[k][pref[k] + n].value != ref[n] or solo[pref[k] + n].value != ref[n]:
+                    E.viol('C13', 'same_values', f'member {k}: {pref[k] + n} = {mc[k][pref[k] + n].value!r}, reference {ref[n]!r}', (k, n), key='per-chain-namespaces-values')
+            if rel_paths(mc[k], d / 'data') != rel_paths(solo, d / f'solo_{k}'):
+                E.viol('C13', 'same_locations', f'member {k} stores at other locations than the standalone chain', k, key='per-chain-namespaces-locations')
+            deps = sorted(t.fullname for t in mc[k].required_tasks(pref[k] + 'report'))
+        if mc['c1']['x::data:dbl'] is not mc['c2']['y::data:dbl']:
+            E.viol('C13', 'sharing', 'the same computation mounted as x in one member and as y in another is not one shared object', 'x / y', key='per-chain-namespaces-sharing')
+
+
+def s_mock_exact(E, tier):
+    """C19: a mock returns exactly the supplied object - whatever it is - and a task that is both given and mocked is mocked"""
+    from taskchain.utils.testing import TestChain, create_test_task
+    from contracts.pipelines import lib
+
+    class Scaler:
+        def __call__(self, x=1):
+            return 3 * x
+
+    def fn():
+        return 'called'
+    for val in (Scaler(), fn, dict, Scaler):
+        E.tried += 1
+        with quiet():
+            tc = TestChain([lib.Dbl], mock_tasks={lib.Src: val}, parameters={}, base_dir=E.dir())
+            got = tc['data:src'].value
+        if got is not val:
+            E.viol('C19', 'mock', f'a mock supplied with the callable object {val!r} returns {got!r}, not the supplied object', repr(val), key='callable-mock-value')
+    E.tried += 1
+    with quiet():
+        lib.RUNS.clear()
+        base = E.dir()
+        tc = TestChain([lib.Src, lib.Dbl], mock_tasks={lib.Src: [100]}, parameters={'n': 2}, base_dir=base)
+        got = tc['data:dbl'].value
+        src_files = [p for p in Path(base).rglob('*') if p.is_file() and 'src' in str(p)]
+    if got != [200] or 'data:src' in lib.RUNS or src_files:
+        E.viol('C19', 'mock', f'a task given both in `tasks` and in `mock_tasks` must be mocked: dbl = {got!r} (mock gives [200]), runs {lib.RUNS}, files {src_files[:2]}',
+               'overlap', key='given-and-mocked')
+
+
 SCENARIOS = {
-    'C01': [s_values_and_history, s_namespaces, s_ns_prefix], 'C02': [s_same_location, s_different_location, s_process_independent, s_default_not_persisted], 'C03': [s_different_location, s_injective],
-    'C04': [s_values_and_history, s_lazy_inputs], 'C07': [s_forcing, s_delete_exact], 'C08': [s_graph, s_namespaces, s_pattern_exact, s_query_history], 'C09': [s_contexts, s_namespaces, s_values_and_history, s_ns_prefix, s_no_shared_values],
-    'C10': [s_namespaces, s_name_access], 'C11': [s_contexts, s_ctx_uses_string], 'C13': [s_multichain], 'C18': [s_run_records, s_log_isolation], 'C19': [s_test_helpers], 'C20': [s_migration],
+    'C01': [s_values_and_history, s_namespaces, s_ns_prefix, s_none_param], 'C02': [s_same_location, s_different_location, s_process_independent, s_default_not_persisted, s_same_location_more], 'C03': [s_different_location, s_injective],
+    'C04': [s_values_and_history, s_lazy_inputs, s_shared_registry, s_late_upstream], 'C07': [s_forcing, s_delete_exact, s_force_replaces, s_multichain], 'C08': [s_graph, s_namespaces, s_pattern_exact, s_query_history], 'C09': [s_contexts, s_namespaces, s_values_and_history, s_ns_prefix, s_no_shared_values],
+    'C10': [s_namespaces, s_name_access], 'C11': [s_contexts, s_ctx_uses_string, s_global_vars_object], 'C13': [s_multichain, s_multichain_memory, s_multichain_mounts], 'C18': [s_run_records, s_log_isolation], 'C19': [s_test_helpers, s_mock_exact], 'C20': [s_migration],
 }
 
 
